@@ -272,12 +272,31 @@ Section RZ.
     intros [a b c0 d e] C. constructor; cbn [c_meta c_elems]; auto; [discriminate|]. intros _ F. congruence.
   Qed.
 
+  (* the two DeleteRange calls of zRemAll remove exactly the member keys and the score-index keys of the
+     generation: the invariant (and the bijection between the two) survives *)
+  Lemma zrange_clear_rep clock z m : RepZ clock z -> c_meta (z_c z) = Some m ->
+    RepZ clock {| z_c := Build_coll None (delete_range (BStart (cm_ver m)) (BStop (cm_ver m)) (c_elems (z_c z)));
+                  z_index := zidx_delete_range (BStart (cm_ver m)) (BStop (cm_ver m)) (z_index z) |}.
+  Proof.
+    intros [Rc Ri] E. rewrite delete_range_exact. constructor; cbn [z_c z_index].
+    - pose proof (rep_clear compact clock false false (z_c z) ltac:(discriminate) Rc) as H.
+      rewrite (clear_coll_eq false false (z_c z) (rc_nodup _ _ _ Rc)), E in H. exact H.
+    - destruct Ri as [K I B]. constructor; cbn [c_elems].
+      + unfold drop_gen. apply (nodup_kfilter (fun k : vkey => negb (fst k =? cm_ver m))). exact K.
+      + apply NoDup_filter. exact I.
+      + intros v mm sc. unfold drop_gen, zidx_delete_range. rewrite !filter_In. cbn [fst snd]. rewrite in_range_gen. cbn [fst].
+        rewrite (B v mm sc). reflexivity.
+  Qed.
+
   Lemma zrem_all_rep clock lazy z : (lazy = true -> compact = true) -> RepZ clock z -> RepZ clock (fst (zrem_all lazy z)).
   Proof.
-    intros LZ R. unfold zrem_all. destruct (zsize z =? 0); [exact R|].
+    intros LZ R. unfold zrem_all. destruct (zsize z =? 0) eqn:Z0; [exact R|].
     pose proof (zremove_rep clock (map snd (index_scan (zver z) (z_index z))) z R (index_scan_members_NoDup clock z _ R)) as HR.
-    destruct lazy; cbn [fst]; [|exact HR].
-    constructor; cbn [z_c z_index c_elems]; [apply rep_meta_none; [apply (rz_c _ _ R)|apply LZ; reflexivity]|apply (rz_i _ _ R)].
+    destruct lazy; cbn [fst].
+    - constructor; cbn [z_c z_index c_elems]; [apply rep_meta_none; [apply (rz_c _ _ R)|apply LZ; reflexivity]|apply (rz_i _ _ R)].
+    - destruct (range_delete_num <? zsize z); cbn [fst]; [|exact HR].
+      unfold zsize, zver, st_size, st_ver in *. destruct (c_meta (z_c z)) as [m|] eqn:E; [|discriminate Z0].
+      apply zrange_clear_rep; assumption.
   Qed.
 
   Lemma zrem_range_bytes_rep clock lazy sel offset count z : (lazy = true -> compact = true) ->
